@@ -167,8 +167,11 @@ class PollScript(object):
         try:
             s.yield_point("uyield")
             if e == "raise":
-                s.ev("pollraise", i)
-                raise EXC["E2"]("poll#%d" % i)
+                x = EXC["E2"]("poll#%d" % i)
+                # which futures this invocation was shown (harness-level peek at the descriptor's private field; silent if renamed)
+                shown = [getattr(d, "_PollDescriptor__future", None) for d in descriptors]
+                s.ev("pollraise", i, s.name_of(x, "x"), [s.name_of(f, "f") for f in shown] if all(f is not None for f in shown) else None, "L%d" % self.li)
+                raise x
             if e == "yield":
                 for d in descriptors:
                     d.yield_result(("polled", d.result))
